@@ -1,17 +1,35 @@
 /-
-  C08 — WATCH (work in progress: table theorems first).
+  C08 — WATCH.  "If any key watched by a connection is changed between its WATCH and its EXEC, by any
+  client and through any means, EXEC returns nil and executes nothing.  If no watched key was touched in
+  that window EXEC executes normally.  UNWATCH, EXEC and DISCARD forget all watched keys."
+
+  Model: `Ferrous.Watch` (Model/Watch.lean): the per-(database, shard) tracker {active, counters, global},
+  the per-connection watch list, `step q s now ev` over events WATCH / UNWATCH / MULTI / EXEC / DISCARD /
+  SELECT / data command (a list of storage operations) / sweeper deletion; `run` = histories.  `Q.code` is the
+  code as it is, `Q.fixed` the prescribed variant (watch entries remember their database; a second WATCH
+  keeps the first baseline).  Whether a storage operation bumps the WATCH counter is data of the operation,
+  read from the regenerated table `Gen.storageFns` (translator/watch_facts.py).
+
+  Ties to the code: `Gen.storageFns`, `Gen.watchQ` (regenerated on every run; table theorems below) and the
+  TCP matrix of lib/c08.py, which mirrors every client command into `drv_watch` and compares every EXEC.
+
+  What fails on the current tree (witness lemmas below, all replayed over TCP): EXPIRE/PEXPIRE, PERSIST,
+  RENAME/RENAMENX (source key), FLUSHDB/FLUSHALL do not mark; a second WATCH replaces the baseline; watch
+  entries forget their database (EXEC / UNWATCH after SELECT); WATCH of an already expired, not yet removed
+  key aborts although nothing changed.
 -/
-import FerrousSpec.Model.Watch
-import FerrousSpec.Gen.Watch
+import FerrousSpec.Proofs.WatchWitness
 namespace Ferrous.C08
 open Ferrous Ferrous.Watch
 
-/-- (function, key parameter) pairs that mutate without reaching `mark_modified` on the current tree;
-    `"*"` stands for "the keys removed by a function without key parameter". -/
-def exceptions : List (String × String) :=
-  [("expire", "key"), ("flush_db", "*"), ("rename", "old_key"), ("pexpire", "key"), ("persist", "key")]
+/-! ## The regenerated table -/
 
-/-- the (function, parameter) pairs of the table that mutate and do not mark -/
+/-- (storage function, key parameter) pairs that mutate stored data without reaching `mark_modified` on the
+    current tree; `"*"` stands for "the keys removed by a function without key parameter" (flush_db). -/
+def exceptions : List (String × String) :=
+  [("expire", "key"), ("pexpire", "key"), ("persist", "key"), ("rename", "old_key"), ("flush_db", "*")]
+
+/-- the (function, parameter) pairs of a table that mutate and do not mark -/
 def nonMarking (fns : List StorageFn) : List (String × String) :=
   fns.flatMap fun f =>
     if f.mutates then
@@ -19,9 +37,328 @@ def nonMarking (fns : List StorageFn) : List (String × String) :=
       else (f.keyParams.filter (fun p => !f.marked.contains p)).map (fun p => (f.name, p))
     else []
 
-theorem all_writes_mark :
-    ∀ x ∈ nonMarking Gen.storageFns, x ∈ exceptions := by decide
+/-- Every `pub fn` of `impl StorageEngine` (and the sweeper loop) that mutates stored data passes each of
+    its key parameters to `mark_modified` — except the listed pairs.  A NEW write that does not mark breaks
+    this theorem (the dynamic matrix checks that "calls mark_modified" means "on every mutating path"). -/
+theorem all_writes_mark : ∀ x ∈ nonMarking Gen.storageFns, x ∈ exceptions := by decide
 
-theorem tree_nonmarking_writes : nonMarking Gen.storageFns = exceptions := by decide
+/-- The exception list is exact on the current tree: each listed pair really is a mutating function that
+    does not mark (confirmed over TCP as known findings).  Applying a `fix:` that adds the missing
+    `mark_modified` call makes this theorem fail: remove the pair from `exceptions` then. -/
+theorem tree_nonmarking_writes : ∀ x ∈ exceptions, x ∈ nonMarking Gen.storageFns := by decide
+
+/-- The watch list of the current tree is keyed by key only and a second WATCH replaces the baseline. -/
+theorem tree_watch_list_is_code : Gen.watchQ = Q.code := by decide
+
+/-- The write paths used by the commands are in the table and mark their key. -/
+theorem tree_marking_functions :
+    (["set_value", "set_string", "set_string_ex", "set_string_nx", "set_string_nx_ex", "delete", "incr", "incr_by",
+      "append", "setrange", "lpush", "rpush", "lpop", "rpop", "lset", "ltrim", "lrem", "sadd", "srem", "spop",
+      "hset", "hdel", "hincrby", "zadd", "zrem", "zincrby", "xadd", "xadd_with_id", "xdel", "xtrim", "get",
+      "expiration_cleanup_loop"].all (fun fn => marksOf fn "key")) = true ∧ marksOf "rename" "new_key" = true := by
+  decide
+
+/-! ## The invariant is reachable -/
+
+/-- Every state reached from the empty state by a `Safe` history (no registration wraps the usize watcher
+    count; unless entries remember their database, nobody SELECTs another database while holding watch
+    entries) satisfies the invariant the soundness theorems assume: counters ≤ global counter, watcher count
+    of a shard ≥ number of entries registered there, baselines ≤ global counter. -/
+theorem reachable_inv (q : Q) (evs : List (Nat × Watch.Ev)) (h : Safe q State.init evs = true) :
+    Inv q (run q State.init evs) :=
+  inv_run q State.init evs (inv_init q) h
+
+/-- In the prescribed variant SELECT is always safe: only the (unreachable) usize wrap remains excluded. -/
+theorem fixed_select_is_safe (s : Watch.State) (c d : Nat) : stepSafe Q.fixed s (.select c d) = true := by
+  simp [stepSafe, Q.fixed]
+
+/-! ## No false abort -/
+
+/-- NO FALSE ABORT, all histories.  Connection `c` holds watch entries whose counters have not passed their
+    baselines and whose keys carry no deadline.  Then whatever any client does — commands on other keys of
+    the same shard or of other shards, reads, refused commands, flushes of other databases, WATCH/UNWATCH/
+    EXEC/SELECT of other connections, sweeper deletions of other keys — as long as no executed operation
+    addresses a watched (database, key) and `c` itself only issues MULTI and data commands, `c`'s EXEC does
+    not return nil.  (Per-key counters are bumped by `mark_modified` of that key only.) -/
+theorem no_false_abort (q : Q) (s : Watch.State) (evs : List (Nat × Watch.Ev)) (c now : Nat) (ops : List Op)
+    (hquiet : ∀ e ∈ evs, quiet q c e.2 = true)
+    (hclean : ∀ w ∈ (s.conn c).watched,
+      s.counter (effDb q (s.conn c) w) w.key ≤ w.base ∧
+      (∀ e, s.entry (effDb q (s.conn c) w) w.key = some e → e.deadline = none) ∧
+      untouched q (effDb q (s.conn c) w) w.key s evs = true) :
+    (step q (run q s evs) now (.exec c ops)).2 ≠ .nil := by
+  intro h
+  rw [exec_nil_iff] at h
+  have := no_abort_of_untouched q s evs c now hquiet hclean
+  rw [this] at h
+  exact absurd h.2 (by simp)
+
+/-- WATCH records the key's current counter: right after `WATCH k` on a connection that watched nothing,
+    the hypothesis `counter ≤ baseline` of `no_false_abort` holds (with equality). -/
+theorem watch_takes_baseline (q : Q) (s : Watch.State) (now c : Nat) (k : Key)
+    (hin : (s.conn c).inTx = false) (hw : (s.conn c).watched = []) :
+    ((step q s now (.watch c [k])).1.conn c).watched = [⟨k, s.counter (s.conn c).db k, (s.conn c).db⟩] ∧
+    (step q s now (.watch c [k])).1.counter (s.conn c).db k = s.counter (s.conn c).db k ∧
+    (step q s now (.watch c [k])).1.entry (s.conn c).db k = s.entry (s.conn c).db k ∧
+    ((step q s now (.watch c [k])).1.conn c).db = (s.conn c).db := by
+  rw [step_watch]
+  simp only [List.isEmpty_cons, hin, Bool.or_self, Bool.false_eq_true, if_false]
+  have hs := watchAll_same q c s [k] (s.conn c).db k
+  refine ⟨?_, hs.1, hs.2, ?_⟩
+  · simp only [watchAll, List.foldl_cons, List.foldl_nil]
+    unfold watchKey
+    simp only [hw, List.any_nil, Bool.and_false, Bool.false_eq_true, if_false, List.filter_nil]
+    rw [conn_setConn]
+    simp only [if_true]
+    rfl
+  · simp only [watchAll, List.foldl_cons, List.foldl_nil]
+    exact db_watchKey q c s k c
+
+/-- WATCH k, then any history that does not address k (no deadline on k), then EXEC: never nil. -/
+theorem no_false_abort_after_watch (q : Q) (s : Watch.State) (t : Nat) (evs : List (Nat × Watch.Ev)) (c now : Nat)
+    (k : Key) (ops : List Op)
+    (hin : (s.conn c).inTx = false) (hw : (s.conn c).watched = [])
+    (hdl : ∀ e, s.entry (s.conn c).db k = some e → e.deadline = none)
+    (hquiet : ∀ e ∈ evs, quiet q c e.2 = true)
+    (hunt : untouched q (s.conn c).db k (step q s t (.watch c [k])).1 evs = true) :
+    (step q (run q s ((t, .watch c [k]) :: evs)) now (.exec c ops)).2 ≠ .nil := by
+  obtain ⟨h1, h2, h3, h4⟩ := watch_takes_baseline q s t c k hin hw
+  simp only [run]
+  apply no_false_abort q _ evs c now ops hquiet
+  intro w hwm
+  rw [h1] at hwm
+  simp only [List.mem_singleton] at hwm
+  subst hwm
+  have hd : effDb q ((step q s t (.watch c [k])).1.conn c) ⟨k, s.counter (s.conn c).db k, (s.conn c).db⟩ = (s.conn c).db := by
+    unfold effDb
+    split
+    · rfl
+    · exact h4
+  rw [hd]
+  refine ⟨?_, ?_, hunt⟩
+  · rw [h2]; exact Nat.le_refl _
+  · rw [h3]; exact hdl
+
+/-! ## Soundness -/
+
+/-- WATCH SOUND, full statement, for every variant `q` and every `Safe` history from a state satisfying the
+    invariant (in particular: every reachable state, `reachable_inv`).  Connection `c` holds a watch entry `w`.
+    Some later step changes the stored entry of the watched (database, key) — by a command of any connection
+    (the watcher included), inside an EXEC, inside a script, by a flush, or by the sweeper removing it — and the
+    table condition holds for that step: every operation it executes marks what it changes (`evMarksOk`; on
+    the fixed tree this is `all_writes_mark` with an empty exception list).  `c` stays quiet (MULTI, data
+    commands; with `q.perDb` also SELECT) and is inside MULTI at the end.  Then its EXEC returns nil.
+    For `q = Q.fixed`, `Safe` only excludes the wrap of a usize counter (`fixed_select_is_safe`). -/
+theorem watch_sound (q : Q) (s : Watch.State) (pre post : List (Nat × Watch.Ev)) (now : Nat) (ev : Watch.Ev)
+    (c : Nat) (w : W) (nowE : Nat) (ops : List Op)
+    (hi : Inv q s) (hsafe : Safe q s pre = true)
+    (hquiet : ∀ e ∈ pre ++ (now, ev) :: post, quiet q c e.2 = true)
+    (hw : w ∈ (s.conn c).watched)
+    (htable : evMarksOk q (run q s pre) now ev = true)
+    (hchanged : (step q (run q s pre) now ev).1.entry w.regDb w.key ≠ (run q s pre).entry w.regDb w.key)
+    (hin : ((run q s (pre ++ (now, ev) :: post)).conn c).inTx = true) :
+    (step q (run q s (pre ++ (now, ev) :: post)) nowE (.exec c ops)).2 = .nil :=
+  sound_of_change q s pre post now ev c w nowE ops hi hsafe hquiet hw htable hchanged hin
+
+/-- WATCH SOUND for the code as it is (`_partial`): the same conclusion when the operation that runs on the
+    watched key — reaching a mutating path: a real change or a touch — is one the table lists as marking
+    (`ko.marks`, i.e. any write except those of `exceptions`), under the decidable exclusions packed in
+    `Safe Q.code` / `quiet Q.code`: no connection SELECTs another database while it holds watch entries (so
+    no UNWATCH decrements a foreign shard, no underflow), the watcher issues no second WATCH and no SELECT
+    between its WATCH and its EXEC, no registration wraps the usize count. -/
+theorem watch_sound_partial (s : Watch.State) (pre post : List (Nat × Watch.Ev)) (now : Nat) (ev : Watch.Ev)
+    (c : Nat) (w : W) (ko : KeyOp) (nowE : Nat) (ops : List Op)
+    (hi : Inv Q.code s) (hsafe : Safe Q.code s pre = true)
+    (hquiet : ∀ e ∈ pre ++ (now, ev) :: post, quiet Q.code c e.2 = true)
+    (hw : w ∈ (s.conn c).watched)
+    (hop : (w.regDb, Op.key ko) ∈ executed Q.code (run Q.code s pre) now ev) (hkey : ko.key = w.key)
+    (hreach : ko.eff.reaches = true) (hmarks : ko.marks = true)
+    (hin : ((run Q.code s (pre ++ (now, ev) :: post)).conn c).inTx = true) :
+    (step Q.code (run Q.code s (pre ++ (now, ev) :: post)) nowE (.exec c ops)).2 = .nil :=
+  sound_of_marking_op Q.code s pre post now ev c w ko nowE ops hi hsafe hquiet hw hop hkey hreach hmarks hin
+
+/-- Expiry by deadline, lazy path: if at EXEC time the stored entry of a watched key has passed its deadline
+    (and the sweeper has not removed it), EXEC inside MULTI returns nil.  (When the sweeper removes it first,
+    that deletion is a marking step: `watch_sound` with `ev = .sweep`.) -/
+theorem watch_sound_expired (q : Q) (s : Watch.State) (c now : Nat) (w : W) (e : Entry) (ops : List Op)
+    (hw : w ∈ (s.conn c).watched) (hin : (s.conn c).inTx = true)
+    (he : s.entry (effDb q (s.conn c) w) w.key = some e) (hx : e.expired now = true) :
+    (step q s now (.exec c ops)).2 = .nil := by
+  rw [exec_nil_iff]
+  refine ⟨hin, ?_⟩
+  unfold execAborts
+  rw [List.any_eq_true]
+  refine ⟨w, hw, ?_⟩
+  unfold wasModifiedSince
+  simp [he, hx]
+
+/-! ## EXEC that returns nil executes nothing; forgetting; per connection -/
+
+/-- When EXEC returns nil nothing is executed: the dataset, the trackers and every other connection are as
+    before; the connection itself has left MULTI with an empty queue and an empty watch list. -/
+theorem exec_nil_executes_nothing (q : Q) (s : Watch.State) (now c : Nat) (ops : List Op)
+    (h : (step q s now (.exec c ops)).2 = .nil) :
+    (step q s now (.exec c ops)).1.data = s.data ∧ (step q s now (.exec c ops)).1.trk = s.trk ∧
+    (∀ c', c' ≠ c → (step q s now (.exec c ops)).1.conn c' = s.conn c') ∧
+    (step q s now (.exec c ops)).1.conn c = { (s.conn c) with inTx := false, watched := [], queued := 0 } := by
+  rw [exec_nil_iff] at h
+  rw [step_exec]
+  simp only [h.1, h.2, Bool.true_eq_false, if_false, if_true]
+  refine ⟨rfl, rfl, fun c' hc => ?_, ?_⟩
+  · have hne : ¬ c = c' := fun e => hc e.symm
+    rw [conn_setConn]; simp [hne]
+  · rw [conn_setConn]; simp [Conn.cleared]
+
+/-- UNWATCH always, EXEC and DISCARD inside MULTI, leave the connection with an empty watch list. -/
+theorem unwatch_exec_discard_forget (q : Q) (s : Watch.State) (now c : Nat) (ops : List Op) :
+    ((step q s now (.unwatch c)).1.conn c).watched = [] ∧
+    ((s.conn c).inTx = true →
+      ((step q s now (.exec c ops)).1.conn c).watched = [] ∧ ((step q s now (.discard c)).1.conn c).watched = []) := by
+  refine ⟨?_, fun hin => ⟨?_, ?_⟩⟩
+  · rw [step_unwatch, conn_setConn]; simp
+  · rw [step_exec]
+    simp only [hin, Bool.true_eq_false, if_false]
+    split
+    · rw [conn_setConn]; simp [Conn.cleared]
+    · rw [conn_applyOps, conn_setConn]; simp [Conn.cleared]
+  · rw [step_discard]
+    simp only [hin, Bool.true_eq_false, if_false]
+    rw [conn_setConn]; simp [Conn.cleared]
+
+/-- ... and afterwards no key is watched: whatever is changed later, by anyone, a later transaction of the
+    connection is not aborted, until it WATCHes again. -/
+theorem forgotten_never_aborts (q : Q) (s : Watch.State) (evs : List (Nat × Watch.Ev)) (c now : Nat) (ops : List Op)
+    (he : (s.conn c).watched = []) (h : ∀ e ∈ evs, noWatchBy c e.2 = true) :
+    (step q (run q s evs) now (.exec c ops)).2 ≠ .nil := by
+  intro hn
+  rw [exec_nil_iff] at hn
+  have := empty_watch_run q s evs c h he
+  unfold execAborts at hn
+  rw [this] at hn
+  simp at hn
+
+/-- Watching is per connection: an event issued by one connection (or the sweeper) leaves the record of
+    every other connection — its watch list with the baselines, its database, its MULTI state — unchanged;
+    in particular EXEC / UNWATCH / DISCARD of one client never clear another client's watch list, and a client
+    that watches nothing is never aborted (`forgotten_never_aborts`). -/
+theorem watch_is_per_connection (q : Q) (s : Watch.State) (now : Nat) (ev : Watch.Ev) (c' : Nat)
+    (h : issuer ev ≠ some c') : (step q s now ev).1.conn c' = s.conn c' :=
+  conn_step_other q s now ev c' h
+
+/-- In the prescribed variant a WATCH of a key that is already watched (same database) changes nothing: the
+    first baseline stays. -/
+theorem fixed_rewatch_is_noop (s : Watch.State) (c : Nat) (k : Key) (w : W)
+    (hw : w ∈ (s.conn c).watched) (hk : w.key = k) (hd : w.regDb = (s.conn c).db) :
+    watchKey Q.fixed c s k = s := by
+  unfold watchKey
+  have : (s.conn c).watched.any (fun w => decide (w.key = k) && decide (w.regDb = (s.conn c).db)) = true := by
+    rw [List.any_eq_true]; exact ⟨w, hw, by simp [hk, hd]⟩
+  simp [Q.fixed, this]
+
+/-! ## Witnesses: where the code as it is violates the full statement (each replayed over TCP by lib/c08.py)
+
+  Every history below is `Safe`, the watcher stays quiet, the stored entry of the watched key changes in the
+  third step — all hypotheses of `watch_sound` except the table condition — and EXEC executes. -/
+
+/-- a marking write (SET by another client) aborts: the positive control -/
+theorem set_aborts : execAfter Q.code hSet 1010 = .nil ∧ judged Q.code hSet 1010 = [(.nil, .mustNil)] := by decide
+
+/-- a write to another key does not: the negative control -/
+theorem other_key_runs : execAfter Q.code hOtherKey 1010 = .array 0 ∧ judged Q.code hOtherKey 1010 = [(.array 0, .mustRun)] := by
+  decide
+
+/-- EXPIRE / PEXPIRE on the watched key: EXEC executes, the Spec demands nil. -/
+theorem watch_sound_fails_expire :
+    Safe Q.code State.init hExpire = true ∧
+    (run Q.code State.init (hExpire.take 3)).entry 0 kWk ≠ (run Q.code State.init (hExpire.take 2)).entry 0 kWk ∧
+    execAfter Q.code hExpire 1010 = .array 0 ∧ judged Q.code hExpire 1010 = [(.array 0, .mustNil)] ∧
+    execAfter Q.code hPexpire 1010 = .array 0 := by decide
+
+/-- PERSIST of the watched key's deadline -/
+theorem watch_sound_fails_persist :
+    Safe Q.code State.init hPersist = true ∧
+    (run Q.code State.init (hPersist.take 3)).entry 0 kWk ≠ (run Q.code State.init (hPersist.take 2)).entry 0 kWk ∧
+    execAfter Q.code hPersist 1010 = .array 0 ∧ judged Q.code hPersist 1010 = [(.array 0, .mustNil)] := by decide
+
+/-- RENAME away from the watched key (renaming TO it does abort) -/
+theorem watch_sound_fails_rename_source :
+    Safe Q.code State.init hRenameSrc = true ∧
+    (run Q.code State.init (hRenameSrc.take 3)).entry 0 kWk ≠ (run Q.code State.init (hRenameSrc.take 2)).entry 0 kWk ∧
+    execAfter Q.code hRenameSrc 1010 = .array 0 ∧ judged Q.code hRenameSrc 1010 = [(.array 0, .mustNil)] ∧
+    execAfter Q.code hRenameDst 1010 = .nil := by decide
+
+/-- FLUSHDB / FLUSHALL removing the watched key -/
+theorem watch_sound_fails_flush :
+    Safe Q.code State.init hFlush = true ∧
+    (run Q.code State.init (hFlush.take 3)).entry 0 kWk ≠ (run Q.code State.init (hFlush.take 2)).entry 0 kWk ∧
+    execAfter Q.code hFlush 1010 = .array 0 ∧ judged Q.code hFlush 1010 = [(.array 0, .mustNil)] ∧
+    execAfter Q.code hFlushAll 1010 = .array 0 := by decide
+
+/-- a second WATCH of the same key replaces the baseline: the change made before it is forgotten (the
+    prescribed variant aborts) -/
+theorem watch_sound_fails_rewatch :
+    execAfter Q.code hRewatch 1010 = .array 0 ∧ judged Q.code hRewatch 1010 = [(.array 0, .mustNil)] ∧
+    execAfter Q.fixed hRewatch 1010 = .nil := by decide
+
+/-- EXEC checks the watched key in the database selected at EXEC time: WATCH k; SELECT 1; k changes in db 0;
+    EXEC executes (the history is not `Safe Q.code`; the prescribed variant aborts) -/
+theorem watch_sound_fails_select_exec :
+    Safe Q.code State.init hSelectExec = false ∧ Safe Q.fixed State.init hSelectExec = true ∧
+    execAfter Q.code hSelectExec 1010 = .array 0 ∧ judged Q.code hSelectExec 1010 = [(.array 0, .mustNil)] ∧
+    execAfter Q.fixed hSelectExec 1010 = .nil := by decide
+
+/-- ... and aborts for a change of the other database's key of that name: a false abort -/
+theorem no_false_abort_fails_select :
+    execAfter Q.code hSelectFalseAbort 1010 = .nil ∧ judged Q.code hSelectFalseAbort 1010 = [(.nil, .mustRun)] ∧
+    execAfter Q.fixed hSelectFalseAbort 1010 = .array 0 := by decide
+
+/-- UNWATCH unregisters in the database selected at UNWATCH time: it takes another client's registration
+    away (watcher count 1 → 0), `mark_modified` becomes a no-op and that client's EXEC misses the change -/
+theorem watch_sound_fails_unwatch_steals :
+    (run Q.code State.init (hUnwatchSteals.take 5)).active 1 (shardOf kWk) = 0 ∧
+    execAfter Q.code hUnwatchSteals 1010 = .array 0 ∧ judged Q.code hUnwatchSteals 1010 = [(.array 0, .mustNil)] ∧
+    execAfter Q.fixed hUnwatchSteals 1010 = .nil := by decide
+
+/-- ... on a zero count it wraps to usize::MAX, and the next registration wraps it back to 0 -/
+theorem watch_sound_fails_unwatch_wraps :
+    (run Q.code State.init (hUnwatchWraps.take 3)).active 1 (shardOf kWk) = 18446744073709551615 ∧
+    (run Q.code State.init (hUnwatchWraps.take 5)).active 1 (shardOf kWk) = 0 ∧
+    execAfter Q.code hUnwatchWraps 1010 = .array 0 ∧ judged Q.code hUnwatchWraps 1010 = [(.array 0, .mustNil)] ∧
+    execAfter Q.fixed hUnwatchWraps 1010 = .nil := by decide
+
+/-- WATCH of a key that is stored but already past its deadline: nothing happens afterwards, EXEC returns nil
+    (both variants: no repair proposed) although the key was logically absent at WATCH and still is -/
+theorem no_false_abort_fails_expired_at_watch :
+    execAfter Q.code hExpiredAtWatch 1110 = .nil ∧ judged Q.code hExpiredAtWatch 1110 = [(.nil, .mustRun)] ∧
+    execAfter Q.fixed hExpiredAtWatch 1110 = .nil := by decide
+
+/-- the deadline passing between WATCH and EXEC aborts (lazy path), before it does not -/
+theorem expiry_aborts :
+    execAfter Q.code hExpires 1100 = .array 0 ∧ execAfter Q.code hExpires 1151 = .nil ∧
+    judged Q.code hExpires 1151 = [(.nil, .mustNil)] ∧ judged Q.code hExpires 1100 = [(.array 0, .mustRun)] := by decide
+
+/-! ## Non-vacuity: the hypotheses of the theorems are satisfiable -/
+
+/-- `watch_sound_partial` applied to the SET history (state after `SET wk; WATCH wk`, then the other
+    client's SET, then MULTI): all hypotheses hold and the conclusion is the nil of `set_aborts`. -/
+example : (step Q.code (run Q.code (run Q.code State.init (hSet.take 2)) ([] ++ (1002, .cmd 1 [setOp kWk 2]) :: [(1003, .multi 0)]))
+    1010 (.exec 0 [])).2 = .nil :=
+  watch_sound_partial (run Q.code State.init (hSet.take 2)) [] [(1003, .multi 0)] 1002 (.cmd 1 [setOp kWk 2]) 0
+    ⟨kWk, 0, 0⟩ ⟨"set_value", kWk, marksOf "set_value" "key", .put ⟨2, none⟩⟩ 1010 []
+    (reachable_inv Q.code (hSet.take 2) (by decide)) (by decide) (by decide) (by decide) (by decide) rfl (by decide)
+    (by decide) (by decide)
+
+/-- `watch_sound` (full statement) applied to the same history in the prescribed variant -/
+example : (step Q.fixed (run Q.fixed (run Q.fixed State.init (hSet.take 2)) ([] ++ (1002, .cmd 1 [setOp kWk 2]) :: [(1003, .multi 0)]))
+    1010 (.exec 0 [])).2 = .nil :=
+  watch_sound Q.fixed (run Q.fixed State.init (hSet.take 2)) [] [(1003, .multi 0)] 1002 (.cmd 1 [setOp kWk 2]) 0
+    ⟨kWk, 0, 0⟩ 1010 []
+    (reachable_inv Q.fixed (hSet.take 2) (by decide)) (by decide) (by decide) (by decide) (by decide) (by decide) (by decide)
+
+/-- `no_false_abort_after_watch`: WATCH wk, another client writes another key, MULTI, EXEC -/
+example : (step Q.code (run Q.code (run Q.code State.init [(1000, .cmd 1 [setOp kWk 1])])
+      ((1001, .watch 0 [kWk]) :: [(1002, .cmd 1 [setOp kOther 2]), (1003, .multi 0)])) 1010 (.exec 0 [])).2 ≠ .nil :=
+  no_false_abort_after_watch Q.code _ 1001 [(1002, .cmd 1 [setOp kOther 2]), (1003, .multi 0)] 0 1010 kWk []
+    (by decide) (by decide) (by decide) (by decide) (by decide)
 
 end Ferrous.C08
